@@ -13,7 +13,7 @@ PROPS = {
     "C14": {"kani": [{"module": "c14", "profiles": Q_DEV}]},
     "C15": {"kani": [{"module": "c15", "profiles": Q_DEV_T_BOTH}]},
     "C17": {"kani": [{"module": "c17", "profiles": Q_DEV}]},
-    "C10": {"kani": [{"module": "c10", "profiles": Q_DEV_T_BOTH}], "unwind": ["ThinArc::with_arc_mut", "ThinArc::with_arc"]},
+    "C10": {"kani": [{"module": "c10", "profiles": Q_DEV_T_BOTH}], "unwind": ["ThinArc::with_arc_mut", "ThinArc::with_arc", "Arc::into_thin"]},
     "C11": {"kani": [{"module": "c11", "profiles": Q_DEV}]},
     "C12": {"kani": [{"module": "c12", "profiles": Q_DEV}]},
     "C05": {"kani": [{"module": "c05", "profiles": Q_DEV_T_BOTH}]},
